@@ -106,17 +106,27 @@ theorem openAt_of_top {i : Nat} {st : List Branch} {b : Branch} {bs : List Branc
   simp [openAt, h, hi]
 
 /-- What a clause line does to the stack, in one of two shapes. -/
-inductive Effect (i : Nat) (st : List Branch) : Kw → List Branch → Prop
+inductive Effect (i : Nat) (path : List Comp) (st : List Branch) : Kw → List Branch → Prop
   | push (c : Bool) (nb : Branch) (X : List Branch) (hi : nb.cur.indent = i) (ht : nb.cur.ctype = .case)
-      (hX : Below i X) (hs : SortedSt X) (hk : ∀ k, k < i → openAt k X = openAt k st) :
-      Effect i st (.case c) (nb :: X)
+      (hX : Below i X) (hs : SortedSt X) (hk : ∀ k, k < i → openAt k X = openAt k st)
+      (hp : nb.cur.path = path) (hsub : ∀ b ∈ X, b ∈ st) :
+      Effect i path st (.case c) (nb :: X)
   | pushElse (nb : Branch) (X : List Branch) (hi : nb.cur.indent = i) (ht : nb.cur.ctype = .els)
       (hX : Below i X) (hs : SortedSt X) (hk : ∀ k, k < i → openAt k X = openAt k st)
-      (ho : openAt i st = some .case) :
-      Effect i st .els (nb :: X)
+      (ho : openAt i st = some .case) (hp : nb.cur.path = path) (hsub : ∀ b ∈ X, b ∈ st) :
+      Effect i path st .els (nb :: X)
   | pop (X : List Branch) (hX : Below i X) (hs : SortedSt X)
-      (hk : ∀ k, k < i → openAt k X = openAt k st) (ho : openAt i st ≠ none) :
-      Effect i st .fin X
+      (hk : ∀ k, k < i → openAt k X = openAt k st) (ho : openAt i st ≠ none) (hsub : ∀ b ∈ X, b ∈ st) :
+      Effect i path st .fin X
+
+theorem mem_closeGE {k : Nat} {st : List Branch} {b : Branch} (h : b ∈ closeGE k st) : b ∈ st := by
+  induction st with
+  | nil => simp [closeGE] at h
+  | cons c cs ih =>
+    by_cases hk : k ≤ c.cur.indent
+    · simp only [closeGE, hk, if_true] at h
+      exact List.mem_cons_of_mem _ (ih h)
+    · simpa [closeGE, hk] using h
 
 theorem openAt_tail {i k : Nat} {st : List Branch} {b : Branch} {bs : List Branch}
     (h : closeGE (i + 1) st = b :: bs) (hi : b.cur.indent = i) (hk : k < i) :
@@ -129,7 +139,8 @@ theorem openAt_tail {i k : Nat} {st : List Branch} {b : Branch} {bs : List Branc
   simp [this]
 
 theorem solveCase_effect {s s' : St} {ps : List (Nat × Comp)} {i : Nat} {kw : Kw}
-    (hs : SortedSt s.state) (h : solveCase s ps i kw = .ok s') : Effect i s.state kw s'.state := by
+    (hs : SortedSt s.state) (h : solveCase s ps i kw = .ok s') :
+    Effect i (fullName ps).dropLast s.state kw s'.state ∧ s'.parents = ps := by
   unfold solveCase at h
   simp only [] at h
   cases hr : closeFor i (fullName ps).dropLast s.state with
@@ -150,7 +161,8 @@ theorem solveCase_effect {s s' : St} {ps : List (Nat × Comp)} {i : Nat} {kw : K
     | case c =>
       simp only [Bool.false_and, Bool.false_eq_true, if_false, Except.ok.injEq] at h
       subst h
-      exact .push c _ X rfl rfl (hX ▸ closeGE_below i s.state) (hX ▸ sortedSt_closeGE i hs) hk
+      exact ⟨.push c _ X rfl rfl (hX ▸ closeGE_below i s.state) (hX ▸ sortedSt_closeGE i hs) hk rfl
+        (fun b hb => mem_closeGE (hX ▸ hb)), rfl⟩
     | els => simp at h
     | fin => simp at h
     | group => simp at h
@@ -164,6 +176,8 @@ theorem solveCase_effect {s s' : St} {ps : List (Nat × Comp)} {i : Nat} {kw : K
     have hbel : Below i bs := e2 ▸ hsort.1
     have hk : ∀ k, k < i → openAt k bs = openAt k s.state := fun k hk => openAt_tail e1 e2 hk
     have hopen := openAt_of_top e1 e2
+    have hsub : ∀ b' ∈ bs, b' ∈ s.state := fun b' hb' =>
+      mem_closeGE (k := i + 1) (by rw [e1]; exact List.mem_cons_of_mem _ hb')
     cases kw with
     | case c =>
       by_cases hel : topIsElse (b :: bs) = true
@@ -171,7 +185,7 @@ theorem solveCase_effect {s s' : St} {ps : List (Nat × Comp)} {i : Nat} {kw : K
       · simp only [Bool.true_and, hel, Bool.false_eq_true, if_false, if_true, switchCase,
           Except.ok.injEq] at h
         subst h
-        exact .push c _ bs rfl rfl hbel hsort.2 hk
+        exact ⟨.push c _ bs rfl rfl hbel hsort.2 hk rfl hsub, rfl⟩
     | els =>
       by_cases hel : topIsElse (b :: bs) = true
       · simp [hel] at h
@@ -182,11 +196,11 @@ theorem solveCase_effect {s s' : St} {ps : List (Nat × Comp)} {i : Nat} {kw : K
         simp only [Bool.not_eq_true] at hel
         simp only [Bool.true_and, hel, Bool.not_false, if_true, switchCase, Except.ok.injEq] at h
         subst h
-        exact .pushElse _ bs rfl rfl hbel hsort.2 hk (by rw [hopen, hc])
+        exact ⟨.pushElse _ bs rfl rfl hbel hsort.2 hk (by rw [hopen, hc]) rfl hsub, rfl⟩
     | fin =>
       simp only [if_true, List.tail_cons, Except.ok.injEq] at h
       subst h
-      exact .pop bs hbel hsort.2 hk (by rw [hopen]; simp)
+      exact ⟨.pop bs hbel hsort.2 hk (by rw [hopen]; simp) hsub, rfl⟩
     | group => simp at h
     | node m v => simp at h
 
@@ -215,84 +229,147 @@ theorem specOpenAt_snoc (k : Nat) (before : List Line) (l : Line) :
     · simp [h2]
   · simp [h]
 
+theorem sorted_all_lt {X : List Branch} : ∀ {i : Nat}, SortedSt X → Below i X → ∀ b ∈ X, b.cur.indent < i := by
+  induction X with
+  | nil => intro i _ _ b hb; simp at hb
+  | cons c cs ih =>
+    intro i hs hX b hb
+    have hc := hX c rfl
+    rcases List.mem_cons.mp hb with rfl | hb'
+    · exact hc
+    · exact Nat.lt_trans (ih hs.2 hs.1 b hb') hc
+
+theorem popGE_register_le {j i : Nat} (h : j ≤ i) (ps : List (Nat × Comp)) (c : Comp) :
+    popGE j (register ps i c) = popGE j ps := by
+  simp [register, popGE, h, popGE_popGE_le h]
+
 /-- The machine's stack agrees with the declarative description of the history. -/
 structure Inv (before : List Line) (s : St) : Prop where
   sorted : SortedSt s.state
   agree : ∀ k, openAt k s.state = specOpenAt k before
+  paths : ∀ b ∈ s.state, b.cur.path = fullName (popGE b.cur.indent s.parents)
 
 theorem inv_init : Inv [] St.init :=
-  ⟨trivial, fun k => by simp [openAt, St.init, closeGE, specOpenAt, lastAtMost]⟩
+  ⟨trivial, fun k => by simp [openAt, St.init, closeGE, specOpenAt, lastAtMost],
+   fun b hb => by simp [St.init] at hb⟩
 
 theorem inv_step {before : List Line} {s s' : St} {l : Line} {o : List Eff} (hinv : Inv before s)
     (h : step s l = .ok (s', o)) : Inv (before ++ [l]) s' := by
   obtain ⟨i, x, kw⟩ := l
-  have plain : ∀ s'', s''.state = closeGE i s.state → clauseType kw = none → Inv (before ++ [⟨i, x, kw⟩]) s'' := by
-    intro s'' hst hct
-    refine ⟨hst ▸ sortedSt_closeGE i hinv.sorted, fun k => ?_⟩
-    rw [hst, openAt_closeGE, specOpenAt_snoc, hinv.agree k]
-    by_cases h1 : i ≤ k <;> simp [h1, hct]
-  have clause : ∀ s1 ps, solveCase s1 ps i kw = .ok s' → s1.state = s.state → clauseType kw ≠ none ∨ kw = .fin →
+  have plain : ∀ s'', s''.state = closeGE i s.state → s''.parents = register s.parents i (.nm x) →
+      clauseType kw = none → Inv (before ++ [⟨i, x, kw⟩]) s'' := by
+    intro s'' hst hpar hct
+    refine ⟨hst ▸ sortedSt_closeGE i hinv.sorted, fun k => ?_, fun b hb => ?_⟩
+    · rw [hst, openAt_closeGE, specOpenAt_snoc, hinv.agree k]
+      by_cases h1 : i ≤ k <;> simp [h1, hct]
+    · rw [hst] at hb
+      have hlt := sorted_all_lt (sortedSt_closeGE i hinv.sorted) (closeGE_below i s.state) b hb
+      rw [hpar, popGE_register_le (by omega)]
+      exact hinv.paths b (mem_closeGE hb)
+  have clause : ∀ s1 n, solveCase s1 (register s.parents i (.cs n)) i kw = .ok s' → s1.state = s.state →
       Inv (before ++ [⟨i, x, kw⟩]) s' := by
-    intro s1 ps hsol hst _
-    have eff := solveCase_effect (hst ▸ hinv.sorted) hsol
+    intro s1 n hsol hst
+    obtain ⟨eff, hpar⟩ := solveCase_effect (hst ▸ hinv.sorted) hsol
     rw [hst] at eff
+    have hpath : (fullName (register s.parents i (.cs n))).dropLast = fullName (popGE i s'.parents) := by
+      rw [hpar, popGE_register_le (Nat.le_refl i)]
+      simp [register, path_cons]
+    have hold : ∀ X : List Branch, SortedSt X → Below i X → (∀ b ∈ X, b ∈ s.state) →
+        ∀ b ∈ X, b.cur.path = fullName (popGE b.cur.indent s'.parents) := by
+      intro X hs hX hsub b hb
+      have hlt := sorted_all_lt hs hX b hb
+      rw [hpar, popGE_register_le (by omega)]
+      exact hinv.paths b (hsub b hb)
     generalize hT : s'.state = T at eff
     cases eff with
-    | push c nb X hi ht hX hs hk =>
-      refine ⟨hT ▸ ⟨hi ▸ hX, hs⟩, fun k => ?_⟩
-      rw [hT, openAt_push k i nb X hi, specOpenAt_snoc]
-      by_cases h1 : i ≤ k
-      · simp [h1, clauseType, ht]
-      · simp only [h1, if_false]
-        rw [hk k (by omega), hinv.agree k]
-    | pushElse nb X hi ht hX hs hk _ =>
-      refine ⟨hT ▸ ⟨hi ▸ hX, hs⟩, fun k => ?_⟩
-      rw [hT, openAt_push k i nb X hi, specOpenAt_snoc]
-      by_cases h1 : i ≤ k
-      · simp [h1, clauseType, ht]
-      · simp only [h1, if_false]
-        rw [hk k (by omega), hinv.agree k]
-    | pop X hX hs hk _ =>
-      refine ⟨hT ▸ hs, fun k => ?_⟩
-      rw [hT, specOpenAt_snoc]
-      by_cases h1 : i ≤ k
-      · simp [h1, clauseType, openAt_below k i _ hX h1]
-      · simp only [h1, if_false]
-        rw [hk k (by omega), hinv.agree k]
+    | push c nb X hi ht hX hs hk hp hsub =>
+      refine ⟨hT ▸ ⟨hi ▸ hX, hs⟩, fun k => ?_, fun b hb => ?_⟩
+      · rw [hT, openAt_push k i nb X hi, specOpenAt_snoc]
+        by_cases h1 : i ≤ k
+        · simp [h1, clauseType, ht]
+        · simp only [h1, if_false]
+          rw [hk k (by omega), hinv.agree k]
+      · rw [hT] at hb
+        rcases List.mem_cons.mp hb with rfl | hb'
+        · rw [hp, hi, hpath]
+        · exact hold X hs hX hsub b hb'
+    | pushElse nb X hi ht hX hs hk _ hp hsub =>
+      refine ⟨hT ▸ ⟨hi ▸ hX, hs⟩, fun k => ?_, fun b hb => ?_⟩
+      · rw [hT, openAt_push k i nb X hi, specOpenAt_snoc]
+        by_cases h1 : i ≤ k
+        · simp [h1, clauseType, ht]
+        · simp only [h1, if_false]
+          rw [hk k (by omega), hinv.agree k]
+      · rw [hT] at hb
+        rcases List.mem_cons.mp hb with rfl | hb'
+        · rw [hp, hi, hpath]
+        · exact hold X hs hX hsub b hb'
+    | pop X hX hs hk _ hsub =>
+      refine ⟨hT ▸ hs, fun k => ?_, fun b hb => ?_⟩
+      · rw [hT, specOpenAt_snoc]
+        by_cases h1 : i ≤ k
+        · simp [h1, clauseType, openAt_below k i _ hX h1]
+        · simp only [h1, if_false]
+          rw [hk k (by omega), hinv.agree k]
+      · rw [hT] at hb
+        exact hold _ hs hX hsub b hb
   cases kw with
   | group =>
     simp only [step, Except.ok.injEq, Prod.mk.injEq] at h
-    exact plain s' (by rw [← h.1]) rfl
+    exact plain s' (by rw [← h.1]) (by rw [← h.1]) rfl
   | node m v =>
     simp only [step] at h
     by_cases hf : falseCase (closeGE i s.state) = true
     · simp only [hf, if_true, Except.ok.injEq, Prod.mk.injEq] at h
-      exact plain s' (by rw [← h.1]) rfl
+      exact plain s' (by rw [← h.1]) (by rw [← h.1]) rfl
     · simp only [hf, Bool.false_eq_true, if_false, Except.ok.injEq, Prod.mk.injEq] at h
-      exact plain s' (by rw [← h.1]; simp [closeGE_closeGE_le (Nat.le_refl i)]) rfl
+      exact plain s' (by rw [← h.1]; simp [closeGE_closeGE_le (Nat.le_refl i)]) (by rw [← h.1]) rfl
   | case c =>
     simp only [step] at h
     cases hsol : solveCase { s with numCases := s.numCases + 1 } (register s.parents i (.cs (s.numCases + 1))) i (.case c) with
     | error e => simp [hsol] at h
     | ok s2 =>
       simp only [hsol, Except.ok.injEq, Prod.mk.injEq] at h
-      exact clause { s with numCases := s.numCases + 1 } _ (h.1 ▸ hsol) rfl (Or.inl (by simp [clauseType]))
+      exact clause { s with numCases := s.numCases + 1 } _ (h.1 ▸ hsol) rfl
   | els =>
     simp only [step] at h
     cases hsol : solveCase { s with numCases := s.numCases + 1 } (register s.parents i (.cs (s.numCases + 1))) i .els with
     | error e => simp [hsol] at h
     | ok s2 =>
       simp only [hsol, Except.ok.injEq, Prod.mk.injEq] at h
-      exact clause { s with numCases := s.numCases + 1 } _ (h.1 ▸ hsol) rfl (Or.inl (by simp [clauseType]))
+      exact clause { s with numCases := s.numCases + 1 } _ (h.1 ▸ hsol) rfl
   | fin =>
     simp only [step] at h
     cases hsol : solveCase { s with numCases := s.numCases + 1 } (register s.parents i (.cs (s.numCases + 1))) i .fin with
     | error e => simp [hsol] at h
     | ok s2 =>
       simp only [hsol, Except.ok.injEq, Prod.mk.injEq] at h
-      exact clause { s with numCases := s.numCases + 1 } _ (h.1 ▸ hsol) rfl (Or.inr rfl)
+      exact clause { s with numCases := s.numCases + 1 } _ (h.1 ▸ hsol) rfl
 
-/-- A misplaced `@else`/`@end` is refused by the step function. -/
+theorem openAt_some {i : Nat} {st : List Branch} {t : CType} (h : openAt i st = some t) :
+    ∃ b bs, closeGE (i + 1) st = b :: bs ∧ b.cur.indent = i ∧ b.cur.ctype = t := by
+  unfold openAt at h
+  cases hc : closeGE (i + 1) st with
+  | nil => simp [hc] at h
+  | cons b bs =>
+    simp only [hc] at h
+    by_cases hi : b.cur.indent = i
+    · simp only [hi, if_true, Option.some.injEq] at h
+      exact ⟨b, bs, rfl, hi, h⟩
+    · simp [hi] at h
+
+/-- A `@case`/`@else` continuing a block whose current clause is `@else` is refused. -/
+theorem step_after_else (s : St) (k : Nat) (x : String) (blk : Branch) (B : List Branch)
+    (kw : Kw) (hkw : kw = .els ∨ ∃ c, kw = .case c)
+    (hB : closeGE (k + 1) s.state = blk :: B) (hi : blk.cur.indent = k)
+    (hpath : blk.cur.path = fullName (popGE k s.parents)) (ht : blk.cur.ctype = .els) :
+    step s ⟨k, x, kw⟩ = .error () := by
+  have hp := path_cons k (.cs (s.numCases + 1)) (popGE k s.parents)
+  have hc := closeFor_same (path := fullName (popGE k s.parents)) hB hi hpath
+  rcases hkw with rfl | ⟨c, rfl⟩ <;>
+    simp [step, solveCase, hp, hc, register, topIsElse, ht]
+
+/-- A misplaced clause line is refused by the step function. -/
 theorem step_misplaced {before : List Line} {s : St} {l : Line} (hinv : Inv before s)
     (hm : misplacedAt before l = true) : step s l = .error () := by
   obtain ⟨i, x, kw⟩ := l
@@ -304,13 +381,20 @@ theorem step_misplaced {before : List Line} {s : St} {l : Line} (hinv : Inv befo
     cases kw with
     | group => simp [misplacedAt] at hm
     | node m v => simp [misplacedAt] at hm
-    | case c => simp [misplacedAt] at hm
+    | case c =>
+      simp only [misplacedAt, beq_iff_eq] at hm
+      obtain ⟨b, bs, e1, e2, e3⟩ := openAt_some ((hinv.agree i).trans hm)
+      have hmem : b ∈ s.state := mem_closeGE (k := i + 1) (by rw [e1]; exact List.mem_cons_self)
+      have hpath := hinv.paths b hmem
+      rw [e2] at hpath
+      rw [step_after_else s i x b bs (.case c) (Or.inr ⟨c, rfl⟩) e1 e2 hpath e3] at hstep
+      cases hstep
     | els =>
       simp only [step] at hstep
       cases hsol : solveCase { s with numCases := s.numCases + 1 } (register s.parents i (.cs (s.numCases + 1))) i .els with
       | error e => simp [hsol] at hstep
       | ok s2 =>
-        have eff := solveCase_effect (s := { s with numCases := s.numCases + 1 }) hinv.sorted hsol
+        have eff := (solveCase_effect (s := { s with numCases := s.numCases + 1 }) hinv.sorted hsol).1
         generalize s2.state = T at eff
         cases eff with
         | pushElse nb X hi ht hX hs hk ho =>
@@ -321,7 +405,7 @@ theorem step_misplaced {before : List Line} {s : St} {l : Line} (hinv : Inv befo
       cases hsol : solveCase { s with numCases := s.numCases + 1 } (register s.parents i (.cs (s.numCases + 1))) i .fin with
       | error e => simp [hsol] at hstep
       | ok s2 =>
-        have eff := solveCase_effect (s := { s with numCases := s.numCases + 1 }) hinv.sorted hsol
+        have eff := (solveCase_effect (s := { s with numCases := s.numCases + 1 }) hinv.sorted hsol).1
         generalize s2.state = T at eff
         cases eff with
         | pop X hX hs hk ho =>
